@@ -1,10 +1,14 @@
 import SophiaModel.Basic.TermOrder
+import SophiaModel.Model.TermImpls
 
 namespace SophiaModel.Driver.C02
-open SophiaModel Proto Term
+open SophiaModel Proto Term TermImpls
 
 def ordStr : Ordering → String
   | .lt => "lt" | .eq => "eq" | .gt => "gt"
+def ordCh : Ordering → Char
+  | .lt => 'l' | .eq => 'e' | .gt => 'g'
+def bCh (b : Bool) : Char := if b then '1' else '0'
 
 /-- split a token list at "|" -/
 def splitBar (toks : List String) : List (List String) :=
@@ -18,30 +22,91 @@ def parseTerms (toks : List String) : Option (List Term) :=
     | some (t, []) => some t
     | _ => none)
 
+/-- `-` is the absent graph name -/
+def parseOptTerms (toks : List String) : Option (List (Option Term)) :=
+  (splitBar toks).mapM (fun ts => match ts with
+    | ["-"] => some none
+    | _ => match Term.parseAll ts with
+      | some (t, []) => some (some t)
+      | _ => none)
+
+/-- fields of a pair: what the model computes (`k=`) and what the property demands (`o.k=`):
+equality is determined by the property text (same components, tag up to ASCII case); the comparison
+must be Equal exactly then; across kinds the order is fixed; equal terms hash alike. The order
+*within* a kind is not fixed by the property: `cmp=` is model-vs-implementation only. -/
+def pairFields (pre : String) (a b : Term) (e : Bool) (c : Ordering) (h : Bool) : List String :=
+  let wf := a.WF && b.WF
+  [kvB (pre ++ "eq") e, kv (pre ++ "cmp") (ordStr c), kvB (pre ++ "heq") h,
+   kvB (pre ++ "cmpeq") (c == .eq)] ++
+  (if wf then [kvB ("o." ++ pre ++ "eq") e, kvB ("o." ++ pre ++ "cmpeq") e] else []) ++
+  (if wf && e then [kvB ("o." ++ pre ++ "heq") true] else [])
+
 def handle (line : String) : String :=
   match fields line with
   | "p" :: rest =>
     match parseTerms rest with
     | some [a, b] =>
-      reply [kvB "eq" (termEq a b), kv "cmp" (ordStr (termCmp a b)),
-             kvB "heq" (termHash a == termHash b)]
+      -- Term::eq/cmp/hash: the pattern-matching transcription; std trait impls (one-line calls of the
+      -- default methods): the accessor-only text of the default methods run on the term as its own
+      -- implementation (`eqI_eq`, `cmpI_eq`, `hashI_eq` prove the two agree)
+      let n := depth a + 1
+      reply (pairFields "" a b (termEq a b) (termCmp a b) (termHash a == termHash b) ++
+        pairFields "s" a b (eqI termImpl termImpl n a b) (cmpI termImpl termImpl n a b)
+          (hashI termImpl n a == hashI termImpl (depth b + 1) b) ++ [kv "shx" "1"] ++
+        (if a.kind != b.kind then
+           [kv "xk" (ordStr (termCmp a b)),
+            kv "o.xk" (if a.kind.rank < b.kind.rank then "lt" else "gt")]
+         else [kv "xk" "-"]))
     | _ => "bad-op"
   | "c" :: rest =>
     match parseTerms rest with
-    | some [_] => "conv=ok"
+    | some [t] =>
+      let exact := fromTerm t == t &&
+        genericLiteral? t == (if t.kind == .literal then some t else none)
+      reply [kv "exact" (if exact then "1" else "0"), kv "o.conv" "ok"]
     | _ => "bad-op"
   | "t" :: rest =>
     match parseTerms rest with
-    | some [_, _, _] => "laws=ok"
+    | some [a, b, c] =>
+      let ts := [a, b, c]
+      let m (f : Term → Term → Char) : String :=
+        String.ofList (ts.flatMap (fun x => ts.map (fun y => f x y)))
+      reply [kv "meq" (m (fun x y => bCh (termEq x y))),
+             kv "mcmp" (m (fun x y => ordCh (termCmp x y))),
+             kv "mheq" (m (fun x y => bCh (termHash x == termHash y))),
+             kv "o.laws" "ok"]
     | _ => "bad-op"
   | "ns" :: hns :: hsuf :: "|" :: rest =>
     match charsOfHex hns, charsOfHex hsuf, Term.parseAll rest with
     | some ns, some suf, some (b, []) =>
+      let full : Term := .iri (ns ++ suf)
       let e := nsTermEq ns suf b
-      reply [kvB "nseq" e, kvB "nseq_rev" (termEq b (.iri (ns ++ suf))),
-             kv "nscmp" (ordStr (termCmp (.iri (ns ++ suf)) b)),
-             kvB "o.nseq" (termEq (.iri (ns ++ suf)) b)]
+      reply [kvB "nseq" e, kvB "nseq_rev" (termEq b full),
+             kv "nscmp" (ordStr (termCmp full b)),
+             kvB "nsheq" (termHash full == termHash b),
+             kvB "o.nseq" (termEq full b), kvB "o.nseq_rev" (termEq full b)]
     | _, _, _ => "bad-op"
+  | ["w", k, ha, hb] =>
+    match charsOfHex ha, charsOfHex hb with
+    | some a, some b =>
+      if k == "tag" then
+        let e := tagEq a b
+        reply ([kvB "weq" e, kv "wcmp" (ordStr (tagCmp a b)), kvB "wcmpeq" (tagCmp a b == .eq),
+                kvB "wheq" (foldTag a == foldTag b), kvB "o.weq" e, kvB "o.wcmpeq" e] ++
+               (if e then [kvB "o.wheq" true] else []))
+      else if k == "iri" || k == "bnode" || k == "var" then
+        let e := wrapEq a b
+        reply ([kvB "weq" e, kv "wcmp" (ordStr (wrapCmp a b)), kvB "wcmpeq" (wrapCmp a b == .eq),
+                kvB "wheq" (wrapHash a == wrapHash b), kv "wborrow" "1", kvB "o.weq" e, kvB "o.wcmpeq" e] ++
+               (if e then [kvB "o.wheq" true] else []))
+      else "bad-op"
+    | _, _ => "bad-hex"
+  | "g" :: rest =>
+    match parseOptTerms rest with
+    | some [a, b] =>
+      let e := graphNameEq a b
+      reply [kvB "gneq" e, kvB "o.gneq" e]
+    | _ => "bad-op"
   | _ => "bad-op"
 
 abbrev State := Unit
